@@ -706,7 +706,7 @@ impl Family for ClsgrpFamily {
                 match &out.sim.end {
                     RunEnd::Panic { location, message } => {
                         rep.stat("runs_ending_in_library_panic_without_io_fault", 1);
-                        rep.stat(&format!("panic_at_{}", location.trim_start_matches("/repo/src/")), 1);
+                        rep.stat(&format!("panic_at_{}", location.trim_start_matches("src/")), 1);
                         let _ = message;
                     }
                     RunEnd::Deadlock(_) => rep.stat("runs_ending_in_deadlock", 1),
